@@ -37,6 +37,11 @@ def load_known(prop: str):
     return open_, fixed
 
 
+import re as _re
+
+_SCRATCH = _re.compile(r"/[\w/.-]*?/vf\d+(?:-\d+)?/p/[a-z]*\d+-\d+")
+
+
 class Ctx:
     """One run of one property's check."""
 
@@ -88,12 +93,13 @@ class Ctx:
         Listed under `open:` in KNOWN_FINDINGS.txt -> KNOWN-FINDING line; anything else -> VIOLATION.
         """
         self.counters["discrepancies"] += 1
+        what = _SCRATCH.sub("<proj>", what)
         if key in self.open_known:
             self.counters["known:" + key] += 1
             self.known_seen.setdefault(key, what)
             return
         self._viol_keys[key] += 1
-        if self._viol_keys[key] > 3 or len(self.violations) >= 30:
+        if self._viol_keys[key] > 2 or len(self._viol_keys) > 40:
             self.counters["violations_not_printed"] += 1
             self.violations.append((key, what, None))
             return
